@@ -147,6 +147,7 @@ def check(ctx):
     for cmd in ('put', 'list'):
         bb = ctx.graph(cmd)
         prod = []
+        first = {}
         for n in bb.nodes('return'):
             v = n.data.get('value')
             if v is None:
@@ -154,8 +155,16 @@ def check(ctx):
             tops = []
             for a in flat(v):
                 tops.extend(a.items if isinstance(a, (ListObj, TupleT)) else [a])
-            if any(reads_xdg(x) for x in tops):
+            keys = set(cid(a) for x in tops for a in flat(x) if reads_xdg(a))
+            if keys:
                 prod.append(n)
+            for k in keys:
+                # the producing site of a path is the first return that carries it (nodes
+                # are numbered in evaluation order): a later function that hands the
+                # same path on -- a tuple of a candidate's directories, say -- is not
+                if k not in first or n.id < first[k].id:
+                    first[k] = n
+        prod = [n for n in prod if any(f.id == n.id for f in first.values())]
         prod = [n for n in prod if not any(
             p.id != n.id and bb.g.dominates(p.id, n.id) for p in prod)]
         ctx.require(prod, 'R07.3: XDG_DATA_HOME is not consulted in %s' % cmd)
